@@ -8,229 +8,285 @@ package query
 
 //@ func (AnalyticListAgg).Execute
 //@   property C14 C19
+//@   ownwrites E:parser.QueryExpression# E:parser.Statement#
 //@   safety
 
 //@ func (NthValue).Execute
 //@   property C14 C19
+//@   ownwrites E:parser.QueryExpression# E:parser.Statement#
 //@   safety
 
 //@ func ByteLen
 //@   property C14 C19
+//@   ownwrites E:parser.QueryExpression# E:parser.Statement#
 //@   safety
 
 //@ func Chdir
 //@   property C14 C19
+//@   ownwrites E:parser.QueryExpression# E:parser.Statement#
 //@   safety
 
 //@ func DateDiff
 //@   property C14 C19
+//@   ownwrites E:parser.QueryExpression# E:parser.Statement#
 //@   safety
 
 //@ func Datetime
 //@   property C14 C19
+//@   ownwrites E:parser.QueryExpression# E:parser.Statement#
 //@   safety
 
 //@ func Datetime$1
 //@   property C14 C19
+//@   ownwrites E:parser.QueryExpression# E:parser.Statement#
 //@   safety
 
 //@ func DatetimeFormat
 //@   property C14 C19
+//@   ownwrites E:parser.QueryExpression# E:parser.Statement#
 //@   safety
 
 //@ func Enotation
 //@   property C14 C19
+//@   ownwrites E:parser.QueryExpression# E:parser.Statement#
 //@   safety
 
 //@ func EnotationToDec
 //@   property C14 C19
+//@   ownwrites E:parser.QueryExpression# E:parser.Statement#
 //@   safety
 
 //@ func FetchCursor
 //@   property C14 C19
+//@   ownwrites E:parser.QueryExpression# E:parser.Statement#
 //@   safety
 
 //@ func Format
 //@   property C14 C19
+//@   ownwrites E:parser.QueryExpression# E:parser.Statement#
 //@   safety
 
 //@ func Instr
 //@   property C14 C19
+//@   ownwrites E:parser.QueryExpression# E:parser.Statement#
 //@   safety
 
 //@ func JsonValue
 //@   property C14 C19
+//@   ownwrites E:parser.QueryExpression# E:parser.Statement#
 //@   safety
 
 //@ func Like
 //@   property C14 C19
+//@   ownwrites E:parser.QueryExpression# E:parser.Statement#
 //@   safety
 
 //@ func ListElem
 //@   property C14 C19
+//@   ownwrites E:parser.QueryExpression# E:parser.Statement#
 //@   safety
 
 //@ func MilliToDatetime
 //@   property C14 C19
+//@   ownwrites E:parser.QueryExpression# E:parser.Statement#
 //@   safety
 
 //@ func NanoToDatetime
 //@   property C14 C19
+//@   ownwrites E:parser.QueryExpression# E:parser.Statement#
 //@   safety
 
 //@ func NewSortValue!body
 //@   property C14 C19
+//@   ownwrites E:parser.QueryExpression# E:parser.Statement#
 //@   safety
 
 //@ func NumberFormat
 //@   property C14 C19
+//@   ownwrites E:parser.QueryExpression# E:parser.Statement#
 //@   safety
 
 //@ func ParseExecuteStatements
 //@   property C14 C19
+//@   ownwrites E:parser.QueryExpression# E:parser.Statement#
 //@   safety
 
 //@ func Printf
 //@   property C14 C19
+//@   ownwrites E:parser.QueryExpression# E:parser.Statement#
 //@   safety
 
 //@ func Rand
 //@   property C14 C19
+//@   ownwrites E:parser.QueryExpression# E:parser.Statement#
 //@   safety
 
 //@ func RemoveFlagElement
 //@   property C14 C19
+//@   ownwrites E:parser.QueryExpression# E:parser.Statement#
 //@   safety
 
 //@ func ReplaceFn
 //@   property C14 C19
+//@   ownwrites E:parser.QueryExpression# E:parser.Statement#
 //@   safety
 
 //@ func SerializeKey
 //@   property C14 C19
+//@   ownwrites E:parser.QueryExpression# E:parser.Statement#
 //@   safety
 //@   ghostset looseKeys = looseKeys + 1
 //@   modifies * except F:option.Flags.StrictEqual#
 
 //@ func SetEnvVar
 //@   property C14 C19
+//@   ownwrites E:parser.QueryExpression# E:parser.Statement#
 //@   safety
 
 //@ func SetFlag
 //@   property C14 C19
+//@   ownwrites E:parser.QueryExpression# E:parser.Statement#
 //@   safety
 
 //@ func SetTableAttribute
 //@   property C14 C19
+//@   ownwrites E:parser.QueryExpression# E:parser.Statement#
 //@   safety
 
 //@ func Source
 //@   property C14 C19
+//@   ownwrites E:parser.QueryExpression# E:parser.Statement#
 //@   safety
 
 //@ func Syntax
 //@   property C14 C19
+//@   ownwrites E:parser.QueryExpression# E:parser.Statement#
 //@   safety
 
 //@ func UTC
 //@   property C14 C19
+//@   ownwrites E:parser.QueryExpression# E:parser.Statement#
 //@   safety
 
 //@ func Width
 //@   property C14 C19
+//@   ownwrites E:parser.QueryExpression# E:parser.Statement#
 //@   safety
 
 //@ func checkArgsForListFunction
 //@   property C14 C19
+//@   ownwrites E:parser.QueryExpression# E:parser.Statement#
 //@   safety
 
 //@ func evalConcat
 //@   property C14 C19
+//@   ownwrites E:parser.QueryExpression# E:parser.Statement#
 //@   safety
 
 //@ func evalUnaryArithmetic
 //@   property C14 C19
+//@   ownwrites E:parser.QueryExpression# E:parser.Statement#
 //@   safety
 
 //@ func execCrypto
 //@   property C14 C19
+//@   ownwrites E:parser.QueryExpression# E:parser.Statement#
 //@   safety
 
 //@ func execCryptoHMAC
 //@   property C14 C19
+//@   ownwrites E:parser.QueryExpression# E:parser.Statement#
 //@   safety
 
 //@ func execDatetimeAdd
 //@   property C14 C19
+//@   ownwrites E:parser.QueryExpression# E:parser.Statement#
 //@   safety
 
 //@ func execDatetimeToInt
 //@   property C14 C19
+//@   ownwrites E:parser.QueryExpression# E:parser.Statement#
 //@   safety
 
 //@ func execFormatInt
 //@   property C14 C19
+//@   ownwrites E:parser.QueryExpression# E:parser.Statement#
 //@   safety
 
 //@ func execMath1Arg
 //@   property C14 C19
+//@   ownwrites E:parser.QueryExpression# E:parser.Statement#
 //@   safety
 
 //@ func execMath2Args
 //@   property C14 C19
+//@   ownwrites E:parser.QueryExpression# E:parser.Statement#
 //@   safety
 
 //@ func execParseInt
 //@   property C14 C19
+//@   ownwrites E:parser.QueryExpression# E:parser.Statement#
 //@   safety
 
 //@ func execStrings1Arg
 //@   property C14 C19
+//@   ownwrites E:parser.QueryExpression# E:parser.Statement#
 //@   safety
 
 //@ func execStringsLen
 //@   property C14 C19
+//@   ownwrites E:parser.QueryExpression# E:parser.Statement#
 //@   safety
 
 //@ func execStringsPadding
 //@   property C14 C19
+//@   ownwrites E:parser.QueryExpression# E:parser.Statement#
 //@   safety
 
 //@ func execStringsTrim
 //@   property C14 C19
+//@   ownwrites E:parser.QueryExpression# E:parser.Statement#
 //@   safety
 
 //@ func loadView$1
 //@   property C14 C19
+//@   ownwrites E:parser.QueryExpression# E:parser.Statement#
 //@   safety
 
 //@ func prepareRegExp
 //@   property C14 C19
+//@   ownwrites E:parser.QueryExpression# E:parser.Statement#
 //@   safety
 
 //@ func prepareRegExpReplace
 //@   property C14 C19
+//@   ownwrites E:parser.QueryExpression# E:parser.Statement#
 //@   safety
 
 //@ func roundParams
 //@   property C14 C19
+//@   ownwrites E:parser.QueryExpression# E:parser.Statement#
 //@   safety
 
 
 //@ func substr
 //@   property C14 C19
+//@   ownwrites E:parser.QueryExpression# E:parser.Statement#
 //@   safety
 
 //@ func timeDiff
 //@   property C14 C19
+//@   ownwrites E:parser.QueryExpression# E:parser.Statement#
 //@   safety
 
 //@ func truncateDate
 //@   property C14 C19
+//@   ownwrites E:parser.QueryExpression# E:parser.Statement#
 //@   safety
 
 //@ func truncateDuration
 //@   property C14 C19
+//@   ownwrites E:parser.QueryExpression# E:parser.Statement#
 //@   safety
 
 // no-panic sweep (C19) over the built-in functions and the FORMAT interpreter: safety conditions only
@@ -856,21 +912,21 @@ package query
 // into an existing cell: every store into cell storage must hit a cell allocated by the statement itself.
 //@ func Update
 //@   property C14 C08
-//@   ownwrites E:value.Primary#
+//@   ownwrites E:value.Primary# E:parser.QueryExpression# E:parser.Statement#
 //@   ensures [failed-statement-publishes-nothing] result2 != nil ==> published == old(published)
 //@   ghostset after call (query.ViewMap).Set#*: published = published + 1
 //@   ghostset after call (*query.ReferenceScope).ReplaceTemporaryTable#*: published = published + 1
 //@   assert after call (query.ViewMap).Load#*: [statement-never-takes-the-cached-view-itself] false
 //@ func Insert
 //@   property C14 C08
-//@   ownwrites E:value.Primary#
+//@   ownwrites E:value.Primary# E:parser.QueryExpression# E:parser.Statement#
 //@   ensures [failed-statement-publishes-nothing] result2 != nil ==> published == old(published)
 //@   ghostset after call (query.ViewMap).Set#*: published = published + 1
 //@   ghostset after call (*query.ReferenceScope).ReplaceTemporaryTable#*: published = published + 1
 //@   assert after call (query.ViewMap).Load#*: [statement-never-takes-the-cached-view-itself] false
 //@ func Replace
 //@   property C14 C08
-//@   ownwrites E:value.Primary#
+//@   ownwrites E:value.Primary# E:parser.QueryExpression# E:parser.Statement#
 //@   ensures [failed-statement-publishes-nothing] result2 != nil ==> published == old(published)
 //@   ghostset after call (query.ViewMap).Set#*: published = published + 1
 //@   ghostset after call (*query.ReferenceScope).ReplaceTemporaryTable#*: published = published + 1
@@ -878,7 +934,7 @@ package query
 //@ func Delete
 //@   property C14 C08 C05
 //@   mapkeys MD:int→bool by $key >= 0
-//@   ownwrites E:value.Primary#
+//@   ownwrites E:value.Primary# E:parser.QueryExpression# E:parser.Statement#
 //@   ensures [failed-statement-publishes-nothing] result2 != nil ==> published == old(published)
 //@   ghostset after call (query.ViewMap).Set#*: published = published + 1
 //@   ghostset after call (*query.ReferenceScope).ReplaceTemporaryTable#*: published = published + 1
@@ -886,21 +942,21 @@ package query
 //@ func AddColumns
 //@   property C14 C08 C05
 //@   assert after call EvaluateSequentially#*: [defaults-are-evaluated-against-the-old-header] base(view.Header) != base(header)
-//@   ownwrites E:value.Primary#
+//@   ownwrites E:value.Primary# E:parser.QueryExpression# E:parser.Statement#
 //@   ensures [failed-statement-publishes-nothing] result2 != nil ==> published == old(published)
 //@   ghostset after call (query.ViewMap).Set#*: published = published + 1
 //@   ghostset after call (*query.ReferenceScope).ReplaceTemporaryTable#*: published = published + 1
 //@   assert after call (query.ViewMap).Load#*: [statement-never-takes-the-cached-view-itself] false
 //@ func DropColumns
 //@   property C14 C08
-//@   ownwrites E:value.Primary#
+//@   ownwrites E:value.Primary# E:parser.QueryExpression# E:parser.Statement#
 //@   ensures [failed-statement-publishes-nothing] result2 != nil ==> published == old(published)
 //@   ghostset after call (query.ViewMap).Set#*: published = published + 1
 //@   ghostset after call (*query.ReferenceScope).ReplaceTemporaryTable#*: published = published + 1
 //@   assert after call (query.ViewMap).Load#*: [statement-never-takes-the-cached-view-itself] false
 //@ func RenameColumn
 //@   property C14 C08
-//@   ownwrites E:value.Primary#
+//@   ownwrites E:value.Primary# E:parser.QueryExpression# E:parser.Statement#
 //@   ensures [failed-statement-publishes-nothing] result1 != nil ==> published == old(published)
 //@   ghostset after call (query.ViewMap).Set#*: published = published + 1
 //@   ghostset after call (*query.ReferenceScope).ReplaceTemporaryTable#*: published = published + 1
